@@ -259,7 +259,11 @@ def error_case(sink, seed, idx):
     else:
         cls = U.BAD_CLASSES[idx % len(U.BAD_CLASSES)]
         fault = cls.__name__
-        bad = cls([U.Leaf(1), U.Leaf(2)][: rng.randrange(1, 3)])
+        n_kids = rng.randrange(0, 3)
+        if n_kids == 0 and cls is U.BadEntriesShort:
+            n_kids = 1  # with no children "one entry too few" is not expressible
+        bad = cls([U.Leaf(1), U.Leaf(2)][:n_kids])
+        fault = f'{cls.__name__}/{n_kids}-children'
         desc, _ = gen.gen_desc(rng, 'plain', 10)
         holder, _ = gen.materialize(desc, rng)
         wrap = rng.choice(['root', 'list', 'dict', 'tuple-last', 'nested'])
@@ -277,7 +281,8 @@ def error_case(sink, seed, idx):
             outcomes[name] = type(e).__name__
     kinds = set(outcomes.values())
     sink.check(len(kinds) == 1 and 'returned' not in kinds, f'error-parity/{fault}', 'an input that makes one traversal raise makes all raise the same exception type', ident, lambda: outcomes)
-    sink.count(f'error-class:{fault}')
+    sink.count(f'error-class:{fault.split("/")[0]}')
+    sink.count(f'error-class-arity:{fault}')
     for k in kinds:
         sink.count(f'error-type:{k}')
     sink.case(harness.fp('err', fault, idx % 45, nil), True, dict(ident, outcomes=outcomes))
